@@ -34,12 +34,57 @@ pub struct ServerFx {
     shutdown_tx: Option<tokio::sync::oneshot::Sender<()>>,
     thread: Option<std::thread::JoinHandle<()>>,
     pub run_returned: Arc<AtomicBool>,
+    /// server-side sockets still open when `Server::run` returned (-1: not measured)
+    pub open_at_return: Arc<std::sync::atomic::AtomicI64>,
     pub base_threads: usize,
 }
 
 /// `min_backoff_ms` of the servers started by this process (the wait after a failed accept);
 /// C15 lowers it so that injected accept failures cost milliseconds.
 pub static ACCEPT_MIN_BACKOFF_MS: std::sync::atomic::AtomicU64 = std::sync::atomic::AtomicU64::new(500);
+
+/// When set, the server thread counts - at the instant `Server::run` returns, before anything
+/// else is dropped - the TCP sockets of this process's server side (local port = server port)
+/// that are still open (ESTABLISHED or CLOSE_WAIT); see `ServerFx::open_at_return`.
+pub static MEASURE_OPEN_AT_RETURN: AtomicBool = AtomicBool::new(false);
+
+/// Number of TCP sockets that THIS process holds open (a descriptor in /proc/self/fd) whose local
+/// port is `port` and whose state in /proc/net/tcp is ESTABLISHED (01) or CLOSE_WAIT (08).  Only
+/// the server side of a connection has the server's port as local port; the descriptor test
+/// keeps sockets of other processes out (a port number can be taken over by another process's
+/// connections, listeners use SO_REUSEADDR).
+pub fn open_server_sockets(port: u16) -> i64 {
+    let text = match std::fs::read_to_string("/proc/net/tcp") {
+        Ok(t) => t,
+        Err(_) => return -1,
+    };
+    let want = format!(":{:04X}", port);
+    let mut inodes: Vec<String> = Vec::new();
+    for line in text.lines().skip(1) {
+        let f: Vec<&str> = line.split_whitespace().collect();
+        if f.len() > 9 && f[1].ends_with(&want) && (f[3] == "01" || f[3] == "08") {
+            inodes.push(format!("socket:[{}]", f[9]));
+        }
+    }
+    if inodes.is_empty() {
+        return 0;
+    }
+    let mut n = 0;
+    if let Ok(rd) = std::fs::read_dir("/proc/self/fd") {
+        for e in rd.flatten() {
+            if let Ok(t) = std::fs::read_link(e.path()) {
+                let t = t.to_string_lossy().to_string();
+                if inodes.iter().any(|i| *i == t) {
+                    n += 1;
+                    if std::env::var("VH_DEBUG_TCP").is_ok() {
+                        eprintln!("[tcp] pid={} port={} fd={:?} {}", std::process::id(), port, e.file_name(), t);
+                    }
+                }
+            }
+        }
+    }
+    n
+}
 
 impl ServerFx {
     /// Start a server over a fresh store in `dir`.
@@ -51,13 +96,46 @@ impl ServerFx {
 
     pub fn start_with(kv: Bitcask, max_connections: usize, workers: usize, base_threads: usize) -> Result<ServerFx, String> {
         let handle = kv.get_handle();
+        Self::start_with_storage(kv, handle, max_connections, workers, base_threads)
+    }
+
+    /// Like `start_with`, but the server is given `storage` (any `KeyValueStorage`, normally a
+    /// wrapper around a handle of `kv`) instead of a plain handle.
+    pub fn start_with_storage<KV: bitcask::storage::KeyValueStorage + Sync>(
+        kv: Bitcask,
+        storage: KV,
+        max_connections: usize,
+        workers: usize,
+        base_threads: usize,
+    ) -> Result<ServerFx, String> {
+        let handle = kv.get_handle();
+        Self::start_inner(Some(kv), handle, storage, max_connections, workers, base_threads)
+    }
+
+    /// A server over a handle of a store that somebody else owns (and drops after `stop`).
+    /// `base_threads` is the thread count of the process before this call.
+    pub fn start_on_handle(handle: Handle, max_connections: usize, workers: usize, base_threads: usize) -> Result<ServerFx, String> {
+        let storage = handle.clone();
+        Self::start_inner(None, handle, storage, max_connections, workers, base_threads)
+    }
+
+    fn start_inner<KV: bitcask::storage::KeyValueStorage + Sync>(
+        kv: Option<Bitcask>,
+        handle: Handle,
+        storage: KV,
+        max_connections: usize,
+        workers: usize,
+        base_threads: usize,
+    ) -> Result<ServerFx, String> {
         for _attempt in 0..200 {
             let port = next_port();
             let (ready_tx, ready_rx) = std::sync::mpsc::channel::<Result<(), String>>();
             let (sd_tx, sd_rx) = tokio::sync::oneshot::channel::<()>();
             let returned = Arc::new(AtomicBool::new(false));
             let returned2 = returned.clone();
-            let h2 = handle.clone();
+            let open_at_return = Arc::new(std::sync::atomic::AtomicI64::new(-1));
+            let open2 = open_at_return.clone();
+            let h2 = storage.clone();
             let th = std::thread::Builder::new()
                 .name("vh-server".into())
                 .spawn(move || {
@@ -81,6 +159,9 @@ impl ServerFx {
                             Ok(server) => {
                                 let _ = ready_tx.send(Ok(()));
                                 server.run().await;
+                                if MEASURE_OPEN_AT_RETURN.load(SeqCst) {
+                                    open2.store(open_server_sockets(port), SeqCst);
+                                }
                                 returned2.store(true, SeqCst);
                             }
                             Err(e) => {
@@ -96,10 +177,11 @@ impl ServerFx {
                     return Ok(ServerFx {
                         port,
                         handle,
-                        kv: Some(kv),
+                        kv,
                         shutdown_tx: Some(sd_tx),
                         thread: Some(th),
                         run_returned: returned,
+                        open_at_return,
                         base_threads,
                     })
                 }
@@ -149,8 +231,11 @@ impl ServerFx {
                 let _ = t.join();
             }
         }
-        self.kv = None;
-        crate::store::wait_bg_exit(self.base_threads);
+        // (a server on a borrowed handle leaves the store - and the threads the store may have
+        // started since - to its owner; the join above already waited for the server's runtime)
+        if self.kv.take().is_some() {
+            crate::store::wait_bg_exit(self.base_threads);
+        }
         ok
     }
 }
